@@ -285,7 +285,7 @@ ADDED10 = {
  "C02": " Wave 9: R-RESETALL (a recycled Match is cleared unconditionally).",
  "C03": " Wave 9: R-BYTECAND (a byte candidate is never len(input) minus a pattern length).",
  "C04": " Wave 9: R-MONOFLAG (the all-branches-fixed flag of the alternation analysis can only be lowered).",
- "C05": " Wave 9: R-REPKIND, R-ENUMFULL, R-EOLNL also for rows in a separate if.",
+ "C05": " Wave 9: R-REPKIND, R-ENUMFULL, R-EOLNL also for rows in a separate if, R-REPCAP (nested group loops around a capture are not merged).",
  "C06": " Wave 9: R-REPKIND, R-SPACEARGS, R-OFFTABLE (ReadRune sizes are used).",
  "C08": " Wave 9: R-OFFTABLE (ReadRune sizes are used).",
  "C09": " Wave 9: R-ROOMLTR (room-to-the-right tests only for left-to-right searches), R-COUNTDEC (the remaining-match count only counts down).",
@@ -294,7 +294,7 @@ ADDED10 = {
  "C12": " Wave 9: R-RESETALL, R-CRAWLGUARD (a push onto the crawl stack makes room for itself), R-TAKEALL.",
  "C13": " Wave 9: R-TRACKGROW (the backtracking stack grows only through the limit-aware routine), R-CRAWLGUARD, R-TAKEALL (nothing of the old receiver survives UnmarshalText).",
  "C14": " Wave 9: R-FRESHRE, R-TIMEOUTSRC (the runner uses the timeout it was called with).",
- "C15": " Wave 9: R-ROOMLTR.",
+ "C15": " Wave 9: R-ROOMLTR, R-EXCLEND (an exclusive end is not decremented twice).",
  "C16": " Wave 9: R-NEGTOGGLE (negation is set, never toggled), R-SPACEARGS.",
  "C17": " Wave 9: R-DENSEEQ (the direct capture table only without holes), R-TAKEALL.",
  "C19": " Wave 9: R-ESCFORMS (escape() introduces no unknown escape form).",
